@@ -230,8 +230,16 @@ func (m *origModel) anyExpr(e hclsyntax.Expression, want cty.Type, consKind stri
 		m.anyExpr(t.Collection, cty.DynamicPseudoType, consKind+">index", depth+1)
 		m.anyExpr(t.Key, cty.DynamicPseudoType, consKind+">index", depth+1)
 	case *hclsyntax.SplatExpr:
-		m.anyExpr(t.Source, cty.DynamicPseudoType, consKind+">splat", depth+1)
-		m.dontcare = append(m.dontcare, t.Range())
+		// a splat is not interpreted further: everything HCL reports as a variable of it is
+		// a written reference - the source and whatever is written behind the splat
+		// operator (index keys such as var.list[*].tags[var.key])
+		for _, tr := range hclsyntax.Variables(t) {
+			if a, ok := travAddr(tr); ok {
+				m.expected = append(m.expected, expOrigin{addr: a, rng: tr.SourceRange(), where: fmt.Sprintf("ScopeTraversal|%s>splat|d%d", consKind, depth), self: tr.RootName() == "self"})
+			} else {
+				m.dontcare = append(m.dontcare, tr.SourceRange())
+			}
+		}
 	case *hclsyntax.RelativeTraversalExpr:
 		m.anyExpr(t.Source, cty.DynamicPseudoType, consKind+">relative", depth+1)
 	case *hclsyntax.LiteralValueExpr, *hclsyntax.ObjectConsKeyExpr:
